@@ -108,8 +108,30 @@ def two_param_file(b, vis, first, second):
     return b.source_unit([b.pragma('solidity', '0.8.16'), fam.contract_with(b, [fn])])
 
 
+def two_function_file(b, order, form, where):
+    """two functions with a memory parameter of the SAME name; one assigns it (form: direct / index), the other only reads it.
+    order: 'writer_first' | 'reader_first'; where: 'same_contract' | 'two_contracts' | 'free_writer'"""
+    arr = lambda: b.index(b.ty('Uint', 256))
+    target = b.var('data') if form == 'direct' else b.index(b.var('data'), b.num(0))
+    writer = b.function('Function', 'normalize', [b.param(arr(), 'Memory', 'data')], [b.fattr('visibility', 'public')] if where != 'free_writer' else [],
+                        b.block([b.expr_stmt(b.bin('Assign', target, b.var('other') if form == 'direct' else b.num(1)))]))
+    reader = b.function('Function', 'digest', [b.param(arr(), 'Memory', 'data')], [b.fattr('visibility', 'external')],
+                        b.block([b.expr_stmt(b.call(b.var('keccak256'), [b.call(b.member(b.var('abi'), 'encode'), [b.var('data')])]))]))
+    pr = b.pragma('solidity', '0.8.16')
+    if where == 'same_contract':
+        fns = [writer, reader] if order == 'writer_first' else [reader, writer]
+        return b.source_unit([pr, fam.contract_with(b, fns)])
+    if where == 'two_contracts':
+        cs = [fam.contract_with(b, [writer], name='W'), fam.contract_with(b, [reader], name='R')]
+        return b.source_unit([pr] + (cs if order == 'writer_first' else cs[::-1]))
+    parts = [b.supart(writer), fam.contract_with(b, [reader], name='R')]
+    return b.source_unit([pr] + (parts if order == 'writer_first' else parts[::-1]))
+
+
 def all_cases(chk):
     out = []
+    for order, form, where in itertools.product(('writer_first', 'reader_first'), ('direct', 'index'), ('same_contract', 'two_contracts', 'free_writer')):
+        out.append(('two functions %s %s %s' % (order, form, where), lambda b, a=(order, form, where): two_function_file(b, *a)))
     pos_all = list(fam.STMT_POSITIONS)
     pos_q = QUICK_STMT_POS
     # no write at all, per variable kind, with and without a constructor assignment
@@ -172,7 +194,7 @@ def body(chk):
     n = len(all_cases(chk))
     idx = list(range(n))
     if chk.quick and n > 900:
-        core = [i for i, (l, _) in enumerate(all_cases(chk)) if l.startswith('two params')]
+        core = [i for i, (l, _) in enumerate(all_cases(chk)) if l.startswith(('two params', 'two functions'))]
         chk.rng.shuffle(idx)
         idx = sorted(set(idx[:900]) | set(core))
     chk.bounds = {'files': '%d of %d x 4 detectors' % (len(idx), n),
